@@ -97,7 +97,7 @@ def Flow : Msg → Bool
   | .wasm s t (.disp (.swap _ _)) f => s == hubA && t == dispA && f.isEmpty
   | .wasm s t (.disp .dispatch) f => s == hubA && t == dispA && f.isEmpty
   | .wasm s _ (.swapDenom _ _ _ none) _ => s == dispA
-  | .bankSend src _ _ _ => src == swapA || src == dispA
+  | .bankSend src dst _ _ => (src == swapA || src == dispA) && dst != hubA
   | .wasm s t (.hub .bondRewards) _ => s == dispA && t == hubA
   | .delegate d _ _ => d == hubA
   | .wasm s t (.reward .updateGlobalIndex) f => s == dispA && t == rewardA && f.isEmpty
@@ -108,6 +108,8 @@ structure Wired19 (s : Sys) : Prop where
   hubDisp : s.hub.dispatcher = some dispA
   dispHub : s.disp.hub = hubA
   dispRw : s.disp.rewardContract = rewardA
+  keeper : s.disp.keeper ≠ hubA
+  wa : s.chain.withdrawAddr ≠ hubA
 
 def AllFlow (q : List Msg) : Prop := ∀ m ∈ q, Flow m = true
 
@@ -117,17 +119,17 @@ theorem AllFlow.append {x y : List Msg} (h1 : AllFlow x) (h2 : AllFlow y) : AllF
   · exact h1 m h
   · exact h2 m h
 
-theorem coinMsgs_flow (c : DispSt) (x : Nat) (hh : c.hub = hubA) :
+theorem coinMsgs_flow (c : DispSt) (x : Nat) (hh : c.hub = hubA) (hk : c.keeper ≠ hubA) (hr : c.rewardContract ≠ hubA) :
     (∀ ms, coinMsgsB c dispA x = .ok ms → AllFlow ms) ∧ (∀ ms, coinMsgsSt c dispA x = .ok ms → AllFlow ms) := by
   constructor
   · intro ms hx; unfold coinMsgsB at hx; exc_split at hx
     · intro m hm; cases hm
-    · intro m hm; simp at hm; rcases hm with rfl | rfl <;> rfl
+    · intro m hm; simp at hm; rcases hm with rfl | rfl <;> simp [Flow, hk, hr]
   · intro ms hx; unfold coinMsgsSt at hx; exc_split at hx
     · intro m hm; cases hm
-    · intro m hm; simp at hm; subst hm; rfl
+    · intro m hm; simp at hm; subst hm; simp [Flow, hk]
     · intro m hm; simp at hm; rcases hm with rfl | rfl
-      · rfl
+      · simp [Flow, hk]
       · simp [Flow, hh]
 
 theorem foldl_allP (P : Msg → Prop) (f : Res (Nat × Nat × List Msg) → Denom → Res (Nat × Nat × List Msg))
@@ -185,17 +187,58 @@ theorem dispSwap_shape (c c' : DispSt) (self : Addr) (env : DispEnv) (sender : A
 theorem flow_step (s s' : Sys) (m : Msg) (subs : List Msg) (w : Wired19 s) (hf : Flow m = true)
     (hx : s.handle m = .ok (s', subs)) :
     AllFlow subs ∧ Wired19 s' ∧ s'.bsei = s.bsei ∧ s'.stsei = s.stsei ∧ s'.reg = s.reg ∧
-    (s'.hub = s.hub ∨ ∃ s1 sender funds, m = .wasm sender hubA (.hub .bondRewards) funds ∧
+    ((s'.hub = s.hub ∧ ∀ sender funds, m ≠ .wasm sender hubA (.hub .bondRewards) funds) ∨
+      ∃ s1 sender funds, m = .wasm sender hubA (.hub .bondRewards) funds ∧
         s.moveFunds sender hubA funds = .ok s1 ∧ s1.hub = s.hub ∧
         hubExec s.hub s1.hubEnv sender funds .bondRewards = .ok (s'.hub, subs)) := by
   have sent := handle_sentBy s s' m subs hx
+  have wa' : s'.chain.withdrawAddr ≠ hubA := by
+    rw [handle_withdrawAddr s s' m subs hx (by intro d a h; subst h; simp [Flow] at hf)]; exact w.wa
   cases handle_touch s s' m subs hx with
-  | none h _ _ hb =>
-    refine ⟨?_, ⟨by rw [h.hub]; exact w.hubDisp, by rw [h.disp]; exact w.dispHub, by rw [h.disp]; exact w.dispRw⟩,
-      h.bsei, h.stsei, h.reg, Or.inl h.hub⟩
-    intro x hx'
-    obtain ⟨t, d, a, he⟩ := hb x hx'
-    subst he; rfl
+  | none h hmm _ hb =>
+    have hne : ∀ sender funds, m ≠ .wasm sender hubA (.hub .bondRewards) funds := by
+      intro sender funds hme
+      rcases hmm with h0 | ⟨_, _, _, _, heq, ht⟩
+      · exact h0 _ _ _ _ hme
+      · rw [hme] at heq; injection heq with _ e2 _ _
+        rcases ht with ht | ht <;> (rw [ht] at e2; cases e2)
+    refine ⟨?_, ⟨by rw [h.hub]; exact w.hubDisp, by rw [h.disp]; exact w.dispHub, by rw [h.disp]; exact w.dispRw,
+      by rw [h.disp]; exact w.keeper, wa'⟩, h.bsei, h.stsei, h.reg, Or.inl ⟨h.hub, hne⟩⟩
+    rcases hmm with hnw | ⟨a, b', c, d', heq, hbt⟩
+    · rw [sent.2 hnw]; intro x hx'; cases hx'
+    · subst heq
+      -- a flow message addressed to a stub is a swap-contract call of the dispatcher
+      cases c with
+      | swapDenom sd am dd tgt =>
+        cases tgt with
+        | none =>
+          have ha : a = dispA := by simpa [Flow] using hf
+          intro x hx'
+          obtain ⟨out, he⟩ := stub_payout s s' a b' sd am dd none d' subs hbt hx x hx'
+          subst he; subst ha; rfl
+        | some _ => simp [Flow] at hf
+      | hub hm' =>
+        cases hm' with
+        | bondRewards =>
+          simp [Flow] at hf
+          rcases hbt with h0 | h0 <;> (rw [h0] at hf; exact absurd hf.2 (by decide))
+        | _ => simp [Flow] at hf
+      | disp dm =>
+        cases dm with
+        | swap x y =>
+          simp [Flow] at hf
+          rcases hbt with h0 | h0 <;> (rw [h0] at hf; exact absurd hf.1.2 (by decide))
+        | dispatch =>
+          simp [Flow] at hf
+          rcases hbt with h0 | h0 <;> (rw [h0] at hf; exact absurd hf.1.2 (by decide))
+        | _ => simp [Flow] at hf
+      | reward rm =>
+        cases rm with
+        | updateGlobalIndex =>
+          simp [Flow] at hf
+          rcases hbt with h0 | h0 <;> (rw [h0] at hf; exact absurd hf.1.2 (by decide))
+        | _ => simp [Flow] at hf
+      | _ => simp [Flow] at hf
   | hub s1 sender funds hm heq h1 hmv hc hx' b t r d g =>
     subst heq
     cases hm with
@@ -213,7 +256,7 @@ theorem flow_step (s s' : Sys) (m : Msg) (subs : List Msg) (w : Wired19 s) (hf :
           intro x hx''
           obtain ⟨v, a, he, _, _⟩ := hall x hx''
           subst he; rfl
-      exact ⟨dl, ⟨by rw [cfg.2.dispatcher]; exact w.hubDisp, by rw [d]; exact w.dispHub, by rw [d]; exact w.dispRw⟩,
+      exact ⟨dl, ⟨by rw [cfg.2.dispatcher]; exact w.hubDisp, by rw [d]; exact w.dispHub, by rw [d]; exact w.dispRw, by rw [d]; exact w.keeper, wa'⟩,
         b, t, g, Or.inr ⟨s1, sender, funds, rfl, hmv, h1.hub, hx'⟩⟩
     | _ => simp [Flow] at hf
   | bsei s1 sender funds tm heq _ _ _ _ _ _ _ => subst heq; simp [Flow] at hf
@@ -224,7 +267,7 @@ theorem flow_step (s s' : Sys) (m : Msg) (subs : List Msg) (w : Wired19 s) (hf :
     | updateGlobalIndex =>
       have hms : subs = [] := (C14_update_records_bank _ _ _ _ _ _ _ _ hx').1
       refine ⟨(by rw [hms]; intro x hx''; cases hx''), ⟨by rw [h]; exact w.hubDisp, by rw [d]; exact w.dispHub,
-        by rw [d]; exact w.dispRw⟩, b, t, g, Or.inl h⟩
+        by rw [d]; exact w.dispRw, by rw [d]; exact w.keeper, wa'⟩, b, t, g, Or.inl ⟨h, fun _ _ hme => by cases hme⟩⟩
     | _ => simp [Flow] at hf
   | disp env sender funds dm heq hx' h b t r g =>
     subst heq
@@ -237,7 +280,7 @@ theorem flow_step (s s' : Sys) (m : Msg) (subs : List Msg) (w : Wired19 s) (hf :
         exc_norm at hx'
         repeat' (split at hx' <;> try (first | (cases hx'; done) | contradiction))
         all_goals (injection hx' with hx'; injection hx' with e1 _; exact e1.symm)
-      refine ⟨?_, ⟨by rw [h]; exact w.hubDisp, by rw [cs]; exact w.dispHub, by rw [cs]; exact w.dispRw⟩, b, t, g, Or.inl h⟩
+      refine ⟨?_, ⟨by rw [h]; exact w.hubDisp, by rw [cs]; exact w.dispHub, by rw [cs]; exact w.dispRw, by rw [cs]; exact w.keeper, wa'⟩, b, t, g, Or.inl ⟨h, fun _ _ hme => by cases hme⟩⟩
       have shape := dispSwap_shape _ _ _ _ _ _ _ _ hx'
       intro x hx''
       obtain ⟨tg, dn, am, dd, fs, he⟩ := shape x hx''
@@ -251,7 +294,7 @@ theorem flow_step (s s' : Sys) (m : Msg) (subs : List Msg) (w : Wired19 s) (hf :
         · split at hx2
           · cases hx2
           · injection hx2 with hx2; injection hx2 with e1 _; exact e1.symm
-      refine ⟨?_, ⟨by rw [h]; exact w.hubDisp, by rw [cs]; exact w.dispHub, by rw [cs]; exact w.dispRw⟩, b, t, g, Or.inl h⟩
+      refine ⟨?_, ⟨by rw [h]; exact w.hubDisp, by rw [cs]; exact w.dispHub, by rw [cs]; exact w.dispRw, by rw [cs]; exact w.keeper, wa'⟩, b, t, g, Or.inl ⟨h, fun _ _ hme => by cases hme⟩⟩
       simp only [dispExec] at hx'; exc_norm at hx'
       split at hx'
       · cases hx'
@@ -267,10 +310,221 @@ theorem flow_step (s s' : Sys) (m : Msg) (subs : List Msg) (w : Wired19 s) (hf :
             · cases hd
             · rename_i m2 h2
               injection hd with hd; subst hd
-              refine AllFlow.append (AllFlow.append ((coinMsgs_flow s.disp _ w.dispHub).1 m1 h1)
-                ((coinMsgs_flow s.disp _ w.dispHub).2 m2 h2)) ?_
+              refine AllFlow.append (AllFlow.append ((coinMsgs_flow s.disp _ w.dispHub w.keeper (by rw [w.dispRw]; decide)).1 m1 h1)
+                ((coinMsgs_flow s.disp _ w.dispHub w.keeper (by rw [w.dispRw]; decide)).2 m2 h2)) ?_
               intro x hx''; simp at hx''; subst hx''; simp [Flow, w.dispRw]
     | _ => simp [Flow] at hf
   | reg s1 sender funds rm heq _ _ _ _ _ _ _ _ _ => subst heq; simp [Flow] at hf
+
+
+/-- carried through the index update's message queue (`s0` = the state the transaction started in) -/
+structure UgiInv (s0 s : Sys) (q : List Msg) : Prop where
+  wired : Wired19 s
+  flow : AllFlow q
+  bsei : s.bsei = s0.bsei
+  stsei : s.stsei = s0.stsei
+  reg : s.reg = s0.reg
+  claims : KeepsClaims s0.hub s.hub
+  prev : s.hub.prevHubBalance = s0.hub.prevHubBalance
+  bank : s.chain.bank hubA 0 = s0.chain.bank hubA 0 + delSum q
+
+theorem UgiInv.step (s0 s s' : Sys) (m : Msg) (rest subs : List Msg)
+    (inv : UgiInv s0 s (m :: rest)) (hx : s.handle m = .ok (s', subs)) : UgiInv s0 s' (subs ++ rest) := by
+  have hf : Flow m = true := inv.flow m (List.mem_cons_self ..)
+  have hrest : AllFlow rest := fun x hx' => inv.flow x (List.mem_cons_of_mem _ hx')
+  obtain ⟨hsub, w', hb, ht, hg, hhub⟩ := flow_step s s' m subs inv.wired hf hx
+  have hbank := inv.bank
+  have dcons : delSum (m :: rest) = delSum [m] + delSum rest := by
+    have := delSum_append [m] rest; simpa using this
+  rw [dcons] at hbank
+  have fin : KeepsClaims s0.hub s'.hub → s'.hub.prevHubBalance = s0.hub.prevHubBalance →
+      s'.chain.bank hubA 0 + delSum [m] = s.chain.bank hubA 0 + delSum subs → UgiInv s0 s' (subs ++ rest) := by
+    intro k p bk
+    refine ⟨w', AllFlow.append hsub hrest, hb.trans inv.bsei, ht.trans inv.stsei, hg.trans inv.reg, k, p, ?_⟩
+    rw [delSum_append]; omega
+  rcases hhub with ⟨hsame, hnb⟩ | ⟨s1, sender, funds, hm, hmv, hh1, hx'⟩
+  · -- the hub's state is untouched; its bank balance changes only when one of its Delegate messages runs
+    have keep : KeepsClaims s0.hub s'.hub := by rw [hsame]; exact inv.claims
+    have prev : s'.hub.prevHubBalance = s0.hub.prevHubBalance := by rw [hsame]; exact inv.prev
+    have sent := handle_sentBy s s' m subs hx
+    cases m with
+    | delegate who v amt =>
+      have hw : who = hubA := by simpa [Flow] using hf
+      subst hw
+      have hsubs : subs = [] := sent.2 (fun _ _ _ _ h => by cases h)
+      simp only [Sys.handle] at hx
+      exc_norm at hx
+      exc_split at hx
+      rename_i hge
+      refine fin keep prev ?_
+      rw [hsubs]
+      simp only [delSum, if_true, Sys.setBank, upd_same, Nat.add_zero]
+      omega
+    | bankSend src dst d amt =>
+      have hsubs : subs = [] := sent.2 (fun _ _ _ _ h => by cases h)
+      have hs : src ≠ hubA ∧ dst ≠ hubA := by
+        simp only [Flow, Bool.and_eq_true, Bool.or_eq_true, beq_iff_eq, bne_iff_ne] at hf
+        refine ⟨?_, hf.2⟩
+        rcases hf.1 with h | h <;> (rw [h]; decide)
+      refine fin keep prev ?_
+      rw [hsubs]
+      simp only [Sys.handle] at hx; exc_norm at hx
+      split at hx
+      · cases hx
+      · rename_i s1 h1
+        have bo := bankMove_other s s1 src dst d amt h1 hubA (fun h => hs.1 h.symm) (fun h => hs.2 h.symm) 0
+        cases hx
+        rw [bo]
+        simp [delSum]
+    | withdrawReward who v =>
+      have hsubs : subs = [] := sent.2 (fun _ _ _ _ h => by cases h)
+      refine fin keep prev ?_
+      rw [hsubs]
+      simp only [Sys.handle] at hx; exc_norm at hx; exc_split at hx
+      have hwa : ¬ hubA = s.chain.withdrawAddr := fun h => inv.wired.wa h.symm
+      simp [List.foldl, Sys.setBank, upd, hwa, delSum]
+    | wasm a b c d =>
+      obtain ⟨s1, hmv, hch⟩ := handle_wasm_chain_eq s s' a b c d subs hx
+      -- the target is not the hub (the only flow call to the hub is BondRewards)
+      have hbh : b ≠ hubA := by
+        intro hbh; subst hbh
+        cases c with
+        | hub hm' =>
+          cases hm' with
+          | bondRewards => exact hnb a d rfl
+          | _ => simp [Flow] at hf
+        | disp dm => cases dm <;> simp [Flow] at hf <;> exact absurd hf.1.2 (by decide)
+        | reward rm => cases rm <;> simp [Flow] at hf <;> exact absurd hf.1.2 (by decide)
+        | swapDenom sd am dd tgt => exact absurd hsame (by
+            -- a swap-contract call addressed to the hub is a parse error: it cannot have succeeded
+            intro _
+            simp only [Sys.handle] at hx; exc_norm at hx
+            split at hx
+            · cases hx
+            · rw [if_pos trivial] at hx; cases hx)
+        | _ => simp [Flow] at hf
+      -- nothing it emits is a Delegate of the hub
+      have nodel : delSum subs = 0 :=
+        (noStake_sums subs (sentBy_noStake b hbh subs (sent.1 a b c d rfl))).1
+      -- and the hub's bank balance does not move
+      have hbk : s'.chain.bank hubA 0 = s.chain.bank hubA 0 := by
+        rw [hch]
+        by_cases ha : a = hubA
+        · -- the hub's own calls in the flow carry no funds
+          have hd : d = [] := by
+            subst ha
+            cases c with
+            | disp dm => cases dm <;> simp [Flow] at hf <;> (try exact absurd hf (by decide)) <;> simpa using hf.2
+            | hub hm' => cases hm' <;> simp [Flow] at hf <;> exact absurd hf.1 (by decide)
+            | reward rm => cases rm <;> simp [Flow] at hf <;> exact absurd hf.1.1 (by decide)
+            | swapDenom sd am dd tgt => cases tgt <;> simp [Flow] at hf <;> exact absurd hf (by decide)
+            | _ => simp [Flow] at hf
+          subst hd
+          simp only [Sys.moveFunds] at hmv
+          injection hmv with hmv; subst hmv; rfl
+        · exact moveFunds_other a b d s s1 hmv hubA (fun h => ha h.symm) (fun h => hbh h.symm) 0
+      refine fin keep prev ?_
+      rw [hbk, nodel]
+      simp [delSum]
+    | _ => simp [Flow] at hf
+  · -- BondRewards: the attached coins arrive and exactly as much is about to be delegated
+    subst hm
+    have hs : sender = dispA := by simpa [Flow] using hf
+    obtain ⟨s1', hmv', hch⟩ := handle_wasm_chain_eq s s' sender hubA _ funds subs hx
+    have e1 : s1' = s1 := by rw [hmv] at hmv'; injection hmv' with h; exact h.symm
+    rw [e1] at hch
+    simp only [hubExec] at hx'
+    split at hx'
+    · cases hx'
+    · obtain ⟨p, st, _, hpay, hst, hd, hh⟩ := HubSt.bondR_spec _ _ _ _ _ _ hx'
+      have ds := delegs_stake s.hub s1.hubEnv p subs rfl hd
+      have hp := paymentOf_funds funds p hpay
+      have kst := actualState_keeps s.hub st s1.hubEnv hst
+      have sbk := (HubSt.actualState_spec s.hub st s1.hubEnv hst).1
+      have keep : KeepsClaims s0.hub s'.hub := by
+        rw [hh]
+        exact inv.claims.trans (kst.trans ⟨⟨rfl, rfl, rfl, rfl, rfl, rfl, rfl⟩, rfl⟩)
+      have prev : s'.hub.prevHubBalance = s0.hub.prevHubBalance := by
+        rw [hh]; show st.prevHubBalance = _; rw [sbk.prev]; exact inv.prev
+      refine fin keep prev ?_
+      have hin := moveFunds_in_eq sender hubA (by rw [hs]; decide) funds s s1 hmv 0
+      rw [hch, hin, ds.2.1, hp]
+      simp [delSum]
+
+/-- **The whole UpdateGlobalIndex transaction, on the hub's side.** If the transaction succeeds — the
+    hub's handler, every reward withdrawal, the dispatcher's swap and dispatch with the swap-contract
+    calls, the keeper and reward-contract transfers, BondRewards with its delegations, the reward
+    contract's index update — then at the end: both token ledgers are exactly as before (nothing is
+    minted, burnt or moved), the registry is untouched, every unbonding claim, the batch history and
+    the open batch are untouched, `prev_hub_balance` is unchanged, and the hub's liquid staking-denom
+    balance is exactly what it was (what BondRewards brought in was delegated in full). -/
+theorem C19_end_to_end (s s' : Sys) (sender : Addr) (w : Wired19 s)
+    (hx : Sys.run 400 s [.wasm sender hubA (.hub .updateGlobalIndex) []] = .ok s') :
+    s'.bsei = s.bsei ∧ s'.stsei = s.stsei ∧ s'.reg = s.reg ∧ KeepsClaims s.hub s'.hub ∧
+    s'.hub.prevHubBalance = s.hub.prevHubBalance ∧ s'.chain.bank hubA 0 = s.chain.bank hubA 0 := by
+  simp only [Sys.run] at hx
+  split at hx
+  · cases hx
+  · rename_i s1 subs h1
+    cases handle_touch s s1 _ subs h1 with
+    | none _ hm' _ _ =>
+      rcases hm' with hm' | ⟨_, _, _, _, heq, ht⟩
+      · exact absurd rfl (hm' _ _ _ _)
+      · injection heq with _ e2 _ _
+        rcases ht with ht | ht <;> (rw [ht] at e2; cases e2)
+    | bsei _ _ _ _ heq _ _ _ _ _ _ _ => injection heq with _ e2 _ _; cases e2
+    | stsei _ _ _ _ heq _ _ _ _ _ _ => injection heq with _ e2 _ _; cases e2
+    | reward _ _ _ _ heq _ _ _ _ _ _ _ _ _ => injection heq with _ e2 _ _; cases e2
+    | disp _ _ _ _ heq _ _ _ _ _ _ => injection heq with _ e2 _ _; cases e2
+    | reg _ _ _ _ heq _ _ _ _ _ _ _ _ _ => injection heq with _ e2 _ _; cases e2
+    | hub s2 sender' funds hm heq h2 hmv hc hx' b t r d g =>
+      injection heq with e1 _ e3 e4
+      injection e3 with e3
+      subst e1; subst e3; subst e4
+      simp only [Sys.moveFunds] at hmv
+      injection hmv with hmv; subst hmv
+      -- the hub's own step
+      have hp : s.hub.isPaused = false := by
+        simp only [hubExec] at hx'
+        split at hx'
+        · cases hx'
+        · rename_i h; simpa using h
+      simp only [hubExec, hp, Bool.false_eq_true, if_false] at hx'
+      obtain ⟨dsp, hdsp, _, hms, hh⟩ := C19_hub_update_global s.hub s1.hub s.hubEnv sender subs hx'
+      have hd : dsp = dispA := by rw [w.hubDisp] at hdsp; injection hdsp with h; exact h.symm
+      subst hd
+      have inv1 : UgiInv s s1 (subs ++ []) := by
+        rw [List.append_nil]
+        refine ⟨⟨by rw [hh]; exact w.hubDisp, by rw [d]; exact w.dispHub, by rw [d]; exact w.dispRw,
+          by rw [d]; exact w.keeper, by rw [hc.2.2]; exact w.wa⟩, ?_, b, t, g,
+          by rw [hh]; exact ⟨⟨rfl, rfl, rfl, rfl, rfl, rfl, rfl⟩, rfl⟩, by rw [hh], ?_⟩
+        · rw [hms]
+          intro x hx''
+          simp only [List.mem_append, List.mem_map, List.mem_cons, List.mem_nil_iff, or_false] at hx''
+          rcases hx'' with ⟨dd, _, rfl⟩ | rfl | rfl <;> rfl
+        · rw [hc.2.2]
+          have : delSum subs = 0 := by
+            rw [hms]
+            refine (noStake_sums _ ?_).1
+            intro x hx''
+            simp only [List.mem_append, List.mem_map, List.mem_cons, List.mem_nil_iff, or_false] at hx''
+            rcases hx'' with ⟨dd, _, rfl⟩ | rfl | rfl <;> rfl
+          rw [this]; rfl
+      have fin := run_inv2 (UgiInv s) (fun a m r a' sb => UgiInv.step s a a' m r sb) 399 s1 _ s' inv1 hx
+      have hb := fin.bank
+      simp only [delSum, Nat.add_zero] at hb
+      exact ⟨fin.bsei, fin.stsei, fin.reg, fin.claims, fin.prev, hb⟩
+
+/-! Non-vacuity: a wired state with 1000 staked and 500 of pending rewards; the whole update
+    succeeds (withdrawal, swap check, dispatch: 25 to the keeper, 475 re-bonded and delegated). -/
+def rewardsPending : Sys :=
+  { genesisSys with
+    chain := { genesisSys.chain with deleg := upd genesisSys.chain.deleg 201 1000,
+                                      delegSet := upd genesisSys.chain.delegSet 201 true,
+                                      pending := upd genesisSys.chain.pending 201 (upd (genesisSys.chain.pending 201) 0 500) },
+    hub := { genesisSys.hub with sBond := 1000 } }
+
+example : Wired19 rewardsPending := ⟨rfl, rfl, rfl, by decide, by decide⟩
+example : ∃ s', Sys.run 400 rewardsPending [.wasm 3 hubA (.hub .updateGlobalIndex) []] = .ok s' := ⟨_, rfl⟩
 
 end Krp
